@@ -6,5 +6,6 @@ struct TsanHooks {
     void (*mem)(void *addr, unsigned size, int is_write, void *pc) = nullptr;
     void (*pc)(void *pc) = nullptr;
     void (*func)(void *pc, int enter) = nullptr;
+    void (*atomic)(void *addr, unsigned size, int is_write, void *pc) = nullptr;   // C11 atomics used by library code
 };
 extern TsanHooks g_tsan;
